@@ -111,4 +111,662 @@ fn(HA, 'validate', self_ty='HypergraphArrow', status='P', props=['C18'], rules={
 fn(HA, 'is_monomorphism', self_ty='HypergraphArrow', status='P', props=['C18'],
    requires=['self.w.wf()', 'self.x.wf()'],
    ensures=[('C18.is_monomorphism', 'r <==> (injective(self.w.table@) && injective(self.x.table@))')])
+fn(HA, 'is_convex_subgraph', self_ty='HypergraphArrow', status='P', props=['C18'],
+   requires=['self.target.wf()', 'self.w.wf()', 'self.x.wf()', 'self.w.target == self.target.w@.len()', 'self.x.target == self.target.x@.len()',
+             'adjacency_fits(self.target.s, self.target.t)', 'self.target.w@.len() * 2 <= usize::MAX', 'self.target.x@.len() < usize::MAX',
+             'self.target.s.values.table@.len() + 1 < usize::MAX', 'self.target.t.values.table@.len() + 1 < usize::MAX'],
+   ensures=[('C18.is_convex', '''r <==> (injective(self.w.table@) && injective(self.x.table@)
+                && forall|k: int| 0 <= k < self.w.table@.len() ==> !reach1(self.target.s, self.target.t, self.x.table@, outside_list(self.x.table@, self.target.x@.len() as int), self.w.table@, (#[trigger] self.w.table@[k]) as int))''')],
+   closures={1: {'header': '|m: usize| -> (b: bool)', 'spec': 'ensures b == (m >= 1usize),'}},
+   loops={1: {'invariant': [
+       'self.target.wf()', 'self.w.wf()', 'self.x.wf()', 'self.w.target == self.target.w@.len()', 'self.target.w@.len() * 2 <= usize::MAX',
+       'injective(self.w.table@)', 'n_nodes == self.target.w@.len()',
+       'adj_is(adj_in, self.target.s, self.target.t, self.x.table@, self.target.w@.len() as int)', 'adj_is(adj_out, self.target.s, self.target.t, outside_list(self.x.table@, self.target.x@.len() as int), self.target.w@.len() as int)', 'adj_is_all(adj_all, self.target.s, self.target.t, self.target.w@.len() as int)',
+       'bfs_inv(self.target.s, self.target.t, self.x.table@, outside_list(self.x.table@, self.target.x@.len() as int), self.w.table@, self.target.w@.len() as int, visited0@, visited1@, frontier0@, frontier1@)',
+       'total(visited0@) <= self.target.w@.len() as int', 'total(visited1@) <= self.target.w@.len() as int'],
+       'ensures': ['bfs_done(self.target.s, self.target.t, self.x.table@, outside_list(self.x.table@, self.target.x@.len() as int), self.w.table@, self.target.w@.len() as int, visited0@, visited1@)'],
+       'decreases': '2 * self.target.w@.len() - total(visited0@) - total(visited1@)'}},
+   proofs=[('start', 'assert(lawful_clone::<usize>());'),
+           ('after:edge_mask.scatter_assign_constant(&self.x.table, K::I::one());', '''assert(edge_mask@ =~= edge_marks(self.x.table@, self.target.x@.len() as int));
+            lemma_outside_list(self.x.table@, self.target.x@.len() as int);
+            lemma_injective_small(self.x.table@, self.target.x@.len() as int);
+            lemma_seg_wf_sources(g.s.sources, g.s.values.table@.len()); lemma_seg_wf_sources(g.t.sources, g.t.values.table@.len());
+            lemma_injective_selection(g.s.sources.table@, self.x.table@); lemma_injective_selection(g.t.sources.table@, self.x.table@);
+            lemma_injective_selection(g.s.sources.table@, outside_list(self.x.table@, self.target.x@.len() as int)); lemma_injective_selection(g.t.sources.table@, outside_list(self.x.table@, self.target.x@.len() as int));'''),
+           ('before:let adj_in = ', '''lemma_reindex_edges(g.s, self.x.table@, s_in); lemma_reindex_edges(g.t, self.x.table@, t_in);
+            lemma_reindex_step(g.s, g.t, self.x.table@, s_in, t_in);
+            assert(s_in.values.table@.len() * t_in.values.table@.len() <= g.s.values.table@.len() * g.t.values.table@.len()) by (nonlinear_arith)
+                requires 0 <= s_in.values.table@.len() <= g.s.values.table@.len(), 0 <= t_in.values.table@.len() <= g.t.values.table@.len();'''),
+           ('before:let adj_out = ', '''lemma_reindex_edges(g.s, outside_edges.table@, s_out); lemma_reindex_edges(g.t, outside_edges.table@, t_out);
+            lemma_reindex_step(g.s, g.t, outside_edges.table@, s_out, t_out);
+            assert(s_out.values.table@.len() * t_out.values.table@.len() <= g.s.values.table@.len() * g.t.values.table@.len()) by (nonlinear_arith)
+                requires 0 <= s_out.values.table@.len() <= g.s.values.table@.len(), 0 <= t_out.values.table@.len() <= g.t.values.table@.len();'''),
+           ('before:while !frontier0.is_empty()', '''lemma_bfs_init(self.target.s, self.target.t, self.x.table@, outside_list(self.x.table@, self.target.x@.len() as int), self.w.table@, self.target.w@.len() as int, visited0@, visited1@, frontier1@);
+            lemma_psum_le(visited0@, 1, self.target.w@.len() as int); lemma_psum_const(visited1@, 0usize, self.target.w@.len() as int);'''),
+           G('before:let next0: K::Index = successors::<K>(&adj_in, &frontier0);', '''let ghost v0 = visited0@; let ghost v1 = visited1@; let ghost f0 = frontier0@; let ghost f1 = frontier1@;
+        proof { assert(lawful_clone::<usize>()); lemma_injective_small(f0, self.target.w@.len() as int); lemma_injective_small(f1, self.target.w@.len() as int); }'''),
+           G('before:let next0: K::Index = filter_unvisited::<K>(&visited0, &next0);', 'let ghost c0 = next0@;'),
+           ('before:let next1: K::Index = {', 'lemma_injective_small(next1_from0@, self.target.w@.len() as int); lemma_injective_small(next1_from1@, self.target.w@.len() as int);'),
+           ('before:filter_unvisited::<K>(&visited1, &unique)', '''lemma_uniq_bounds(next1_from0@, next1_from1@, unique@, self.target.w@.len() as int);
+            assert forall|r: Seq<usize>| #![trigger pick_ok(visited1@, unique@, r)] pick_ok(visited1@, unique@, r) implies next1_ok(next1_from0@, next1_from1@, visited1@, r, self.target.w@.len() as int) by {
+                lemma_next1(next1_from0@, next1_from1@, unique@, visited1@, r, self.target.w@.len() as int);
+            }'''),
+           ('after:let next1: K::Index = {', '''assert(next1_ok(next1_from0@, next1_from1@, v1, next1@, self.target.w@.len() as int));
+            lemma_round(self.target.s, self.target.t, self.x.table@, outside_list(self.x.table@, self.target.x@.len() as int), self.target.w@.len() as int, adj_in, adj_out, adj_all, v0, v1, f0, f1, c0, next1_from0@, next1_from1@, next0@, next1@);'''),
+           ('before:break;', 'lemma_bfs_break(self.target.s, self.target.t, self.x.table@, outside_list(self.x.table@, self.target.x@.len() as int), self.w.table@, self.target.w@.len() as int, v0, v1, f0, f1, next0@, next1@);'),
+           ('after:visited1.scatter_assign_constant(&next1, K::I::one());', 'lemma_bfs_step(self.target.s, self.target.t, self.x.table@, outside_list(self.x.table@, self.target.x@.len() as int), self.w.table@, self.target.w@.len() as int, v0, v1, f0, f1, next0@, next1@, visited0@, visited1@);'),
+           ('end', '''lemma_bfs_exact(self.target.s, self.target.t, self.x.table@, outside_list(self.x.table@, self.target.x@.len() as int), self.w.table@, self.target.w@.len() as int, visited0@, visited1@);
+            assert forall|k: int| 0 <= k < self.w.table@.len() implies (reach1(self.target.s, self.target.t, self.x.table@, outside_list(self.x.table@, self.target.x@.len() as int), self.w.table@, (#[trigger] self.w.table@[k]) as int) <==> reached_selected@[k] >= 1) by {
+                assert(reached_selected@[k] == visited1@[self.w.table@[k] as int]);
+            }''')])
 endgroup()
+raw(r'''
+// ---------------------------------------------------------------------------------------------
+// helpers of the two-layer search in is_convex_subgraph
+// ---------------------------------------------------------------------------------------------
+/// r lists exactly the candidates whose flag is still 0
+pub open spec fn pick_ok(vis: Seq<usize>, cand: Seq<usize>, r: Seq<usize>) -> bool {
+    &&& in_bounds(r, vis.len() as int) && (injective(cand) ==> injective(r)) && r.len() <= cand.len()
+    &&& forall|t: int| 0 <= t < r.len() ==> vis[(#[trigger] r[t]) as int] == 0 && hit(cand, r[t] as int, cand.len() as int)
+    &&& forall|c: int| 0 <= c < cand.len() && vis[(#[trigger] cand[c]) as int] == 0 ==> hit(r, cand[c] as int, r.len() as int)
+}
+
+/// `candidates.gather(zero(visited.gather(candidates)))`: the candidates whose flag is still 0, in order
+pub proof fn lemma_pick_zeros(vis: Seq<usize>, cand: Seq<usize>, r: Seq<usize>)
+    requires in_bounds(cand, vis.len() as int), cand.len() <= usize::MAX,
+        r.len() == zeros_upto(kseq(vis, cand), cand.len() as int).len(),
+        forall|t: int| 0 <= t < r.len() ==> #[trigger] r[t] == cand[zeros_upto(kseq(vis, cand), cand.len() as int)[t] as int],
+    ensures pick_ok(vis, cand, r)
+{
+    let g = kseq(vis, cand); let z = zeros_upto(g, cand.len() as int);
+    lemma_zeros_props(g, cand.len() as int);
+    assert forall|t: int| 0 <= t < r.len() implies (#[trigger] r[t]) < vis.len() && vis[r[t] as int] == 0 && hit(cand, r[t] as int, cand.len() as int) by {
+        assert(z[t] < cand.len() && g[z[t] as int] == 0);
+        assert(cand[z[t] as int] == r[t]);
+    }
+    if injective(cand) {
+        assert forall|t1: int, t2: int| 0 <= t1 < r.len() && 0 <= t2 < r.len() && t1 != t2 implies r[t1] != r[t2] by {
+            assert(z[t1] < cand.len() && z[t2] < cand.len());
+            if t1 < t2 { assert(z[t1] < z[t2]); } else { assert(z[t2] < z[t1]); }
+        }
+    }
+    assert forall|c: int| 0 <= c < cand.len() && vis[(#[trigger] cand[c]) as int] == 0 implies hit(r, cand[c] as int, r.len() as int) by {
+        assert(g[c] == 0);
+        let t = choose|t: int| 0 <= t < z.len() && #[trigger] z[t] == c;
+        assert(r[t] == cand[c]);
+    }
+}
+''')
+
+fn(HA, 'successors', kind='free', status='P', props=['C18'],
+   requires=['adj_wf(*adjacency)', 'in_bounds(frontier@, adjacency.sources.table@.len() as int)', 'injective(frontier@)',
+             'adjacency.values.table@.len() < usize::MAX', 'adjacency.sources.table@.len() < usize::MAX', 'frontier@.len() < usize::MAX'],
+   ensures=[('C18.successors-shape', 'in_bounds(r@, adjacency.sources.table@.len() as int) && injective(r@)'),
+            ('C18.successors', 'forall|v: int| 0 <= v < adjacency.sources.table@.len() ==> (hit(r@, v, r@.len() as int) <==> #[trigger] edge_from(*adjacency, frontier@, v))')],
+   proofs=[('start', 'assert(lawful_clone::<usize>());'),
+           ('end', '''assert forall|v: int| 0 <= v < adjacency.sources.table@.len() implies (hit(g.table@, v, g.table@.len() as int) <==> #[trigger] edge_from(*adjacency, frontier@, v)) by {
+                lemma_rel_nonneg(*adjacency, f.table@, v, f.table@.len() as int);
+                if hit(g.table@, v, g.table@.len() as int) {
+                    let k = choose|k: int| 0 <= k < g.table@.len() && #[trigger] g.table@[k] == v;
+                    assert(rel(*adjacency, f.table@, g.table@[k] as int, f.table@.len() as int) > 0);
+                    let k2 = lemma_rel_witness(*adjacency, f.table@, v, f.table@.len() as int);
+                    assert(adj_edge(*adjacency, frontier@[k2] as int, v));
+                }
+                if edge_from(*adjacency, frontier@, v) {
+                    let k2 = choose|k: int| 0 <= k < frontier@.len() && adj_edge(*adjacency, (#[trigger] frontier@[k]) as int, v);
+                    lemma_rel_edge(*adjacency, f.table@, v, f.table@.len() as int, k2);
+                }
+            }''')])
+fn(HA, 'filter_unvisited', kind='free', status='P', props=['C18'],
+   requires=['in_bounds(candidates@, visited@.len() as int)'],
+   ensures=[('C18.filter_unvisited', 'pick_ok(visited@, candidates@, r@)')],
+   proofs=[('start', 'assert(lawful_clone::<usize>());'),
+           ('before:let visited_on_candidates', '''assert(candidates@.len() <= usize::MAX) by { vstd::std_specs::vec::axiom_spec_len(&candidates.0); }
+            lemma_zeros_props(kseq(visited@, candidates@), candidates@.len() as int);'''),
+           ('end', '''assert(visited_on_candidates@ =~= kseq(visited@, candidates@));
+            assert forall|r: Seq<usize>| #![trigger r.len()] r.len() == unvisited_ix@.len() && (forall|t: int| 0 <= t < r.len() ==> r[t] == candidates@[unvisited_ix@[t] as int])
+                implies pick_ok(visited@, candidates@, r) by { lemma_pick_zeros(visited@, candidates@, r); }''')])
+
+raw(r'''
+// ---------------------------------------------------------------------------------------------
+// ghost model of the two-layer search of is_convex_subgraph
+// ---------------------------------------------------------------------------------------------
+/// some hyperedge listed in es has w among its sources and v among its targets
+pub open spec fn thru(s: IndexedCoproduct<FiniteFunction>, t: IndexedCoproduct<FiniteFunction>, es: Seq<usize>, w: int, v: int) -> bool {
+    exists|i: int| 0 <= i < es.len() && adj_edge(s, (#[trigger] es[i]) as int, w) && adj_edge(t, es[i] as int, v)
+}
+
+/// v is reached from a seed by at most k steps through hyperedges of xin only
+pub open spec fn r0(s: IndexedCoproduct<FiniteFunction>, t: IndexedCoproduct<FiniteFunction>, xin: Seq<usize>, seeds: Seq<usize>, k: int, v: int) -> bool
+    decreases k
+{
+    if k <= 0 { hit(seeds, v, seeds.len() as int) }
+    else { r0(s, t, xin, seeds, k - 1, v) || exists|w: int| r0(s, t, xin, seeds, k - 1, w) && #[trigger] thru(s, t, xin, w, v) }
+}
+
+/// v is reached from a seed by at most k steps, at least one of them through a hyperedge of xout
+/// (before the first such step only hyperedges of xin are used, after it any hyperedge)
+pub open spec fn r1(s: IndexedCoproduct<FiniteFunction>, t: IndexedCoproduct<FiniteFunction>, xin: Seq<usize>, xout: Seq<usize>, seeds: Seq<usize>, k: int, v: int) -> bool
+    decreases k
+{
+    if k <= 0 { false }
+    else {
+        r1(s, t, xin, xout, seeds, k - 1, v)
+        || (exists|w: int| r0(s, t, xin, seeds, k - 1, w) && #[trigger] thru(s, t, xout, w, v))
+        || (exists|w: int| r1(s, t, xin, xout, seeds, k - 1, w) && #[trigger] node_step(s, t, w, v))
+    }
+}
+
+#[verifier::opaque]
+pub open spec fn reach0(s: IndexedCoproduct<FiniteFunction>, t: IndexedCoproduct<FiniteFunction>, xin: Seq<usize>, seeds: Seq<usize>, v: int) -> bool {
+    exists|k: int| 0 <= k && #[trigger] r0(s, t, xin, seeds, k, v)
+}
+
+#[verifier::opaque]
+pub open spec fn reach1(s: IndexedCoproduct<FiniteFunction>, t: IndexedCoproduct<FiniteFunction>, xin: Seq<usize>, xout: Seq<usize>, seeds: Seq<usize>, v: int) -> bool {
+    exists|k: int| 0 <= k && #[trigger] r1(s, t, xin, xout, seeds, k, v)
+}
+
+pub proof fn lemma_reach0_seed(s: IndexedCoproduct<FiniteFunction>, t: IndexedCoproduct<FiniteFunction>, xin: Seq<usize>, seeds: Seq<usize>, v: int)
+    requires hit(seeds, v, seeds.len() as int)
+    ensures reach0(s, t, xin, seeds, v)
+{
+    reveal(reach0);
+    assert(r0(s, t, xin, seeds, 0, v));
+}
+
+pub proof fn lemma_reach0_step(s: IndexedCoproduct<FiniteFunction>, t: IndexedCoproduct<FiniteFunction>, xin: Seq<usize>, seeds: Seq<usize>, w: int, v: int)
+    requires reach0(s, t, xin, seeds, w), thru(s, t, xin, w, v)
+    ensures reach0(s, t, xin, seeds, v)
+{
+    reveal(reach0);
+    let k = choose|k: int| 0 <= k && #[trigger] r0(s, t, xin, seeds, k, w);
+    assert(r0(s, t, xin, seeds, k + 1, v));
+}
+
+pub proof fn lemma_reach1_enter(s: IndexedCoproduct<FiniteFunction>, t: IndexedCoproduct<FiniteFunction>, xin: Seq<usize>, xout: Seq<usize>, seeds: Seq<usize>, w: int, v: int)
+    requires reach0(s, t, xin, seeds, w), thru(s, t, xout, w, v)
+    ensures reach1(s, t, xin, xout, seeds, v)
+{
+    reveal(reach0); reveal(reach1);
+    let k = choose|k: int| 0 <= k && #[trigger] r0(s, t, xin, seeds, k, w);
+    assert(r1(s, t, xin, xout, seeds, k + 1, v));
+}
+
+pub proof fn lemma_reach1_step(s: IndexedCoproduct<FiniteFunction>, t: IndexedCoproduct<FiniteFunction>, xin: Seq<usize>, xout: Seq<usize>, seeds: Seq<usize>, w: int, v: int)
+    requires reach1(s, t, xin, xout, seeds, w), node_step(s, t, w, v)
+    ensures reach1(s, t, xin, xout, seeds, v)
+{
+    reveal(reach1);
+    let k = choose|k: int| 0 <= k && #[trigger] r1(s, t, xin, xout, seeds, k, w);
+    assert(r1(s, t, xin, xout, seeds, k + 1, v));
+}
+
+/// a target of a hyperedge is a node
+pub proof fn lemma_edge_bound(t: IndexedCoproduct<FiniteFunction>, e: int, v: int)
+    requires t.wf(), 0 <= e < t.sources.table@.len(), adj_edge(t, e, v)
+    ensures 0 <= v < t.values.target
+{
+    let j = choose|j: int| 0 <= j < t.sources.table@[e] && #[trigger] t.values.table@[seg_at(t.sources.table@, e, j)] == v;
+    lemma_seg_range(t.sources.table@, e, j);
+}
+
+/// loop invariant of the search (f0 / f1 = frontiers of layer 0 / layer 1)
+pub open spec fn bfs_inv(s: IndexedCoproduct<FiniteFunction>, t: IndexedCoproduct<FiniteFunction>, xin: Seq<usize>, xout: Seq<usize>, seeds: Seq<usize>, n: int,
+                         v0: Seq<usize>, v1: Seq<usize>, f0: Seq<usize>, f1: Seq<usize>) -> bool {
+    &&& v0.len() == n && v1.len() == n && in_bounds(seeds, n)
+    &&& forall|v: int| 0 <= v < n ==> (#[trigger] v0[v]) <= 1
+    &&& forall|v: int| 0 <= v < n ==> (#[trigger] v1[v]) <= 1
+    &&& forall|k: int| 0 <= k < seeds.len() ==> v0[(#[trigger] seeds[k]) as int] == 1
+    &&& forall|v: int| 0 <= v < n && (#[trigger] v0[v]) == 1 ==> reach0(s, t, xin, seeds, v)
+    &&& forall|v: int| 0 <= v < n && (#[trigger] v1[v]) == 1 ==> reach1(s, t, xin, xout, seeds, v)
+    &&& in_bounds(f0, n) && injective(f0) && in_bounds(f1, n) && injective(f1)
+    &&& forall|k: int| 0 <= k < f0.len() ==> v0[(#[trigger] f0[k]) as int] == 1
+    &&& forall|k: int| 0 <= k < f1.len() ==> v1[(#[trigger] f1[k]) as int] == 1
+    &&& forall|w: int, v: int| 0 <= w < n && 0 <= v < n && v0[w] == 1 && !hit(f0, w, f0.len() as int) && #[trigger] thru(s, t, xin, w, v) ==> v0[v] == 1
+    &&& forall|w: int, v: int| 0 <= w < n && 0 <= v < n && v0[w] == 1 && !hit(f0, w, f0.len() as int) && #[trigger] thru(s, t, xout, w, v) ==> v1[v] == 1
+    &&& forall|w: int, v: int| 0 <= w < n && 0 <= v < n && v1[w] == 1 && !hit(f1, w, f1.len() as int) && #[trigger] node_step(s, t, w, v) ==> v1[v] == 1
+}
+
+/// what holds when the search stops: both marked sets are sound and closed
+pub open spec fn bfs_done(s: IndexedCoproduct<FiniteFunction>, t: IndexedCoproduct<FiniteFunction>, xin: Seq<usize>, xout: Seq<usize>, seeds: Seq<usize>, n: int,
+                          v0: Seq<usize>, v1: Seq<usize>) -> bool {
+    &&& v0.len() == n && v1.len() == n
+    &&& forall|v: int| 0 <= v < n ==> (#[trigger] v1[v]) <= 1
+    &&& forall|k: int| 0 <= k < seeds.len() ==> v0[(#[trigger] seeds[k]) as int] == 1
+    &&& forall|v: int| 0 <= v < n && (#[trigger] v1[v]) == 1 ==> reach1(s, t, xin, xout, seeds, v)
+    &&& forall|w: int, v: int| 0 <= w < n && 0 <= v < n && v0[w] == 1 && #[trigger] thru(s, t, xin, w, v) ==> v0[v] == 1
+    &&& forall|w: int, v: int| 0 <= w < n && 0 <= v < n && v0[w] == 1 && #[trigger] thru(s, t, xout, w, v) ==> v1[v] == 1
+    &&& forall|w: int, v: int| 0 <= w < n && 0 <= v < n && v1[w] == 1 && #[trigger] node_step(s, t, w, v) ==> v1[v] == 1
+}
+
+/// closed sets contain everything reachable
+pub proof fn lemma_bfs_complete(s: IndexedCoproduct<FiniteFunction>, t: IndexedCoproduct<FiniteFunction>, xin: Seq<usize>, xout: Seq<usize>, seeds: Seq<usize>, n: int,
+                                v0: Seq<usize>, v1: Seq<usize>, k: int, v: int)
+    requires bfs_done(s, t, xin, xout, seeds, n, v0, v1), s.wf(), t.wf(), s.sources.table@.len() == t.sources.table@.len(),
+        t.values.target == n, in_bounds(seeds, n), in_bounds(xin, s.sources.table@.len() as int), in_bounds(xout, s.sources.table@.len() as int), 0 <= k,
+    ensures r0(s, t, xin, seeds, k, v) ==> 0 <= v < n && v0[v] == 1,
+        r1(s, t, xin, xout, seeds, k, v) ==> 0 <= v < n && v1[v] == 1,
+    decreases k
+{
+    if k == 0 {
+        if r0(s, t, xin, seeds, k, v) {
+            let i = choose|i: int| 0 <= i < seeds.len() && #[trigger] seeds[i] == v;
+        }
+    } else {
+        lemma_bfs_complete(s, t, xin, xout, seeds, n, v0, v1, k - 1, v);
+        if r0(s, t, xin, seeds, k, v) && !r0(s, t, xin, seeds, k - 1, v) {
+            let w = choose|w: int| r0(s, t, xin, seeds, k - 1, w) && #[trigger] thru(s, t, xin, w, v);
+            lemma_bfs_complete(s, t, xin, xout, seeds, n, v0, v1, k - 1, w);
+            let i = choose|i: int| 0 <= i < xin.len() && adj_edge(s, (#[trigger] xin[i]) as int, w) && adj_edge(t, xin[i] as int, v);
+            lemma_edge_bound(t, xin[i] as int, v);
+        }
+        if r1(s, t, xin, xout, seeds, k, v) && !r1(s, t, xin, xout, seeds, k - 1, v) {
+            if exists|w: int| r0(s, t, xin, seeds, k - 1, w) && #[trigger] thru(s, t, xout, w, v) {
+                let w = choose|w: int| r0(s, t, xin, seeds, k - 1, w) && #[trigger] thru(s, t, xout, w, v);
+                lemma_bfs_complete(s, t, xin, xout, seeds, n, v0, v1, k - 1, w);
+                let i = choose|i: int| 0 <= i < xout.len() && adj_edge(s, (#[trigger] xout[i]) as int, w) && adj_edge(t, xout[i] as int, v);
+                lemma_edge_bound(t, xout[i] as int, v);
+            } else {
+                let w = choose|w: int| r1(s, t, xin, xout, seeds, k - 1, w) && #[trigger] node_step(s, t, w, v);
+                lemma_bfs_complete(s, t, xin, xout, seeds, n, v0, v1, k - 1, w);
+                let e = choose|e: int| 0 <= e < s.sources.table@.len() && #[trigger] adj_edge(s, e, w) && adj_edge(t, e, v);
+                lemma_edge_bound(t, e, v);
+            }
+        }
+    }
+}
+
+/// the marked layer-1 set is exactly the set of nodes reachable through an outside hyperedge
+pub proof fn lemma_bfs_exact(s: IndexedCoproduct<FiniteFunction>, t: IndexedCoproduct<FiniteFunction>, xin: Seq<usize>, xout: Seq<usize>, seeds: Seq<usize>, n: int,
+                             v0: Seq<usize>, v1: Seq<usize>)
+    requires bfs_done(s, t, xin, xout, seeds, n, v0, v1), s.wf(), t.wf(), s.sources.table@.len() == t.sources.table@.len(),
+        t.values.target == n, in_bounds(seeds, n), in_bounds(xin, s.sources.table@.len() as int), in_bounds(xout, s.sources.table@.len() as int),
+    ensures forall|v: int| 0 <= v < n ==> ((#[trigger] v1[v]) >= 1 <==> reach1(s, t, xin, xout, seeds, v))
+{
+    assert forall|v: int| 0 <= v < n implies ((#[trigger] v1[v]) >= 1 <==> reach1(s, t, xin, xout, seeds, v)) by {
+        if reach1(s, t, xin, xout, seeds, v) {
+            reveal(reach1);
+            let k = choose|k: int| 0 <= k && #[trigger] r1(s, t, xin, xout, seeds, k, v);
+            lemma_bfs_complete(s, t, xin, xout, seeds, n, v0, v1, k, v);
+        }
+    }
+}
+''')
+
+raw(r'''
+/// w with the cells f[0..m] set to one
+pub open spec fn oned(w: Seq<usize>, f: Seq<usize>, m: int) -> Seq<usize>
+    decreases m
+{
+    if m <= 0 { w } else { oned(w, f, m - 1).update(f[m - 1] as int, 1usize) }
+}
+
+pub proof fn lemma_oned_at(w: Seq<usize>, f: Seq<usize>, m: int)
+    requires 0 <= m <= f.len(), in_bounds(f, w.len() as int)
+    ensures oned(w, f, m).len() == w.len(),
+        forall|j: int| 0 <= j < w.len() ==> #[trigger] oned(w, f, m)[j] == (if last_write(f, j, m) >= 0 { 1usize } else { w[j] })
+    decreases m
+{
+    if m > 0 { lemma_oned_at(w, f, m - 1); }
+}
+
+pub proof fn lemma_total_oned(w: Seq<usize>, f: Seq<usize>, m: int)
+    requires in_bounds(f, w.len() as int), injective(f), forall|k: int| 0 <= k < f.len() ==> w[(#[trigger] f[k]) as int] == 0, 0 <= m <= f.len(),
+    ensures total(oned(w, f, m)) == total(w) + m
+    decreases m
+{
+    if m > 0 {
+        lemma_total_oned(w, f, m - 1);
+        lemma_oned_at(w, f, m - 1);
+        lemma_last_write(f, f[m - 1] as int, m - 1);
+        assert(w[f[m - 1] as int] == 0);
+        lemma_psum_bump(oned(w, f, m - 1), oned(w, f, m), f[m - 1] as int, w.len() as int);
+    }
+}
+
+/// marking an injective list of unmarked cells
+pub proof fn lemma_bfs_marks(v: Seq<usize>, next: Seq<usize>, vn: Seq<usize>)
+    requires vn.len() == v.len(), in_bounds(next, v.len() as int), injective(next),
+        forall|j: int| 0 <= j < v.len() ==> #[trigger] vn[j] == (if written(next, j) { 1usize } else { v[j] }),
+        forall|k: int| 0 <= k < next.len() ==> v[(#[trigger] next[k]) as int] == 0,
+        forall|j: int| 0 <= j < v.len() ==> (#[trigger] v[j]) <= 1,
+    ensures total(vn) == total(v) + next.len(), total(vn) <= v.len(),
+        forall|j: int| 0 <= j < v.len() ==> (#[trigger] vn[j]) <= 1,
+        forall|j: int| 0 <= j < v.len() ==> ((#[trigger] vn[j]) == 1 <==> (v[j] == 1 || hit(next, j, next.len() as int))),
+{
+    let m = next.len() as int;
+    lemma_oned_at(v, next, m);
+    assert(vn =~= oned(v, next, m));
+    lemma_total_oned(v, next, m);
+    lemma_psum_le(vn, 1, v.len() as int);
+    assert forall|j: int| 0 <= j < v.len() implies ((#[trigger] vn[j]) == 1 <==> (v[j] == 1 || hit(next, j, m))) by {
+        lemma_written_iff_hit(next, j);
+    }
+}
+
+/// re-indexing an incidence relation by a list of hyperedges x: segment i of the result is segment x[i]
+pub proof fn lemma_reindex_edges(a: IndexedCoproduct<FiniteFunction>, x: Seq<usize>, r: IndexedCoproduct<FiniteFunction>)
+    requires in_bounds(x, a.sources.table@.len() as int),
+        r.sources.table@ == kseq(a.sources.table@, x),
+        forall|i: int, j: int| 0 <= i < x.len() && 0 <= j < kseq(a.sources.table@, x)[i] ==>
+            r.values.table@[#[trigger] seg_at(kseq(a.sources.table@, x), i, j)] == a.values.table@[psum(a.sources.table@, x[i] as int) + j],
+    ensures forall|i: int, w: int| 0 <= i < x.len() ==> (#[trigger] adj_edge(r, i, w) <==> adj_edge(a, x[i] as int, w))
+{
+    let k = kseq(a.sources.table@, x); let sz = a.sources.table@;
+    assert forall|i: int, w: int| 0 <= i < x.len() implies (#[trigger] adj_edge(r, i, w) <==> adj_edge(a, x[i] as int, w)) by {
+        assert(k[i] == sz[x[i] as int]);
+        if adj_edge(r, i, w) {
+            let j = choose|j: int| 0 <= j < k[i] && #[trigger] r.values.table@[seg_at(k, i, j)] == w;
+            assert(a.values.table@[seg_at(sz, x[i] as int, j)] == w);
+        }
+        if adj_edge(a, x[i] as int, w) {
+            let j = choose|j: int| 0 <= j < sz[x[i] as int] && #[trigger] a.values.table@[seg_at(sz, x[i] as int, j)] == w;
+            assert(r.values.table@[seg_at(k, i, j)] == w);
+        }
+    }
+}
+
+pub proof fn lemma_reindex_step(gs: IndexedCoproduct<FiniteFunction>, gt: IndexedCoproduct<FiniteFunction>, x: Seq<usize>,
+                                s2: IndexedCoproduct<FiniteFunction>, t2: IndexedCoproduct<FiniteFunction>)
+    requires s2.sources.table@.len() == x.len(), t2.sources.table@.len() == x.len(),
+        forall|i: int, w: int| 0 <= i < x.len() ==> (#[trigger] adj_edge(s2, i, w) <==> adj_edge(gs, x[i] as int, w)),
+        forall|i: int, w: int| 0 <= i < x.len() ==> (#[trigger] adj_edge(t2, i, w) <==> adj_edge(gt, x[i] as int, w)),
+    ensures forall|w: int, v: int| #![trigger node_step(s2, t2, w, v)] #![trigger thru(gs, gt, x, w, v)] node_step(s2, t2, w, v) <==> thru(gs, gt, x, w, v)
+{
+    assert forall|w: int, v: int| #![trigger node_step(s2, t2, w, v)] #![trigger thru(gs, gt, x, w, v)] node_step(s2, t2, w, v) <==> thru(gs, gt, x, w, v) by {
+        if node_step(s2, t2, w, v) {
+            let e = choose|e: int| 0 <= e < s2.sources.table@.len() && #[trigger] adj_edge(s2, e, w) && adj_edge(t2, e, v);
+            assert(adj_edge(gs, x[e] as int, w) && adj_edge(gt, x[e] as int, v));
+        }
+        if thru(gs, gt, x, w, v) {
+            let i = choose|i: int| 0 <= i < x.len() && adj_edge(gs, (#[trigger] x[i]) as int, w) && adj_edge(gt, x[i] as int, v);
+            assert(adj_edge(s2, i, w) && adj_edge(t2, i, v));
+        }
+    }
+}
+
+/// 1 for the hyperedges in the image of x (what `fill(0).scatter_assign_constant(x, 1)` builds)
+pub open spec fn edge_marks(x: Seq<usize>, m: int) -> Seq<usize> {
+    Seq::new(m as nat, |e: int| if last_write(x, e, x.len() as int) >= 0 { 1usize } else { 0usize })
+}
+
+/// the hyperedges outside the image of x, in increasing order
+pub open spec fn outside_list(x: Seq<usize>, m: int) -> Seq<usize> { zeros_upto(edge_marks(x, m), m) }
+
+pub proof fn lemma_outside_list(x: Seq<usize>, m: int)
+    requires 0 <= m <= usize::MAX
+    ensures in_bounds(outside_list(x, m), m), injective(outside_list(x, m)), outside_list(x, m).len() <= m,
+        forall|e: int| 0 <= e < m ==> (#[trigger] hit(outside_list(x, m), e, outside_list(x, m).len() as int) <==> !hit(x, e, x.len() as int)),
+{
+    let mk = edge_marks(x, m); let z = outside_list(x, m);
+    lemma_zeros_props(mk, m);
+    assert forall|a: int, b: int| 0 <= a < z.len() && 0 <= b < z.len() && a != b implies z[a] != z[b] by {
+        if a < b { assert(z[a] < z[b]); } else { assert(z[b] < z[a]); }
+    }
+    assert forall|e: int| 0 <= e < m implies (#[trigger] hit(z, e, z.len() as int) <==> !hit(x, e, x.len() as int)) by {
+        lemma_written_iff_hit(x, e);
+        if hit(z, e, z.len() as int) {
+            let i = choose|i: int| 0 <= i < z.len() && #[trigger] z[i] == e;
+            assert(mk[z[i] as int] == 0);
+        }
+        if !hit(x, e, x.len() as int) { assert(mk[e] == 0); }
+    }
+}
+
+/// distinct values below n are at most n many
+pub proof fn lemma_injective_small(f: Seq<usize>, n: int)
+    requires in_bounds(f, n), injective(f), n >= 0
+    ensures f.len() <= n
+{
+    if f.len() > n { let (i, j) = lemma_pigeonhole(f, n); }
+}
+
+pub proof fn lemma_bfs_init(s: IndexedCoproduct<FiniteFunction>, t: IndexedCoproduct<FiniteFunction>, xin: Seq<usize>, xout: Seq<usize>, seeds: Seq<usize>, n: int,
+                            v0: Seq<usize>, v1: Seq<usize>, f1: Seq<usize>)
+    requires v0.len() == n, v1.len() == n, in_bounds(seeds, n), injective(seeds), f1.len() == 0,
+        forall|j: int| 0 <= j < n ==> #[trigger] v0[j] == (if written(seeds, j) { 1usize } else { 0usize }),
+        forall|j: int| 0 <= j < n ==> #[trigger] v1[j] == 0,
+    ensures bfs_inv(s, t, xin, xout, seeds, n, v0, v1, seeds, f1)
+{
+    assert forall|j: int| 0 <= j < n implies (written(seeds, j) <==> #[trigger] hit(seeds, j, seeds.len() as int)) by { lemma_written_iff_hit(seeds, j); }
+    assert forall|k: int| 0 <= k < seeds.len() implies v0[(#[trigger] seeds[k]) as int] == 1 by { assert(hit(seeds, seeds[k] as int, seeds.len() as int)); }
+    assert forall|v: int| 0 <= v < n && (#[trigger] v0[v]) == 1 implies reach0(s, t, xin, seeds, v) by {
+        assert(hit(seeds, v, seeds.len() as int));
+        lemma_reach0_seed(s, t, xin, seeds, v);
+    }
+    assert forall|w: int| 0 <= w < n && (#[trigger] v0[w]) == 1 implies hit(seeds, w, seeds.len() as int) by {}
+}
+
+/// what the three successor lists and the two filtered lists of one round satisfy
+pub open spec fn round_ok(s: IndexedCoproduct<FiniteFunction>, t: IndexedCoproduct<FiniteFunction>, xin: Seq<usize>, xout: Seq<usize>, n: int,
+                          v0: Seq<usize>, v1: Seq<usize>, f0: Seq<usize>, f1: Seq<usize>, next0: Seq<usize>, next1: Seq<usize>) -> bool {
+    &&& in_bounds(next0, n) && injective(next0) && in_bounds(next1, n) && injective(next1)
+    &&& forall|k: int| 0 <= k < next0.len() ==> v0[(#[trigger] next0[k]) as int] == 0 && exists|i: int| 0 <= i < f0.len() && thru(s, t, xin, (#[trigger] f0[i]) as int, next0[k] as int)
+    &&& forall|k: int| 0 <= k < next1.len() ==> v1[(#[trigger] next1[k]) as int] == 0
+            && ((exists|i: int| 0 <= i < f0.len() && thru(s, t, xout, (#[trigger] f0[i]) as int, next1[k] as int))
+                || (exists|i: int| 0 <= i < f1.len() && node_step(s, t, (#[trigger] f1[i]) as int, next1[k] as int)))
+    &&& forall|i: int, v: int| 0 <= i < f0.len() && 0 <= v < n && #[trigger] thru(s, t, xin, f0[i] as int, v) && v0[v] == 0 ==> hit(next0, v, next0.len() as int)
+    &&& forall|i: int, v: int| 0 <= i < f0.len() && 0 <= v < n && #[trigger] thru(s, t, xout, f0[i] as int, v) && v1[v] == 0 ==> hit(next1, v, next1.len() as int)
+    &&& forall|i: int, v: int| 0 <= i < f1.len() && 0 <= v < n && #[trigger] node_step(s, t, f1[i] as int, v) && v1[v] == 0 ==> hit(next1, v, next1.len() as int)
+}
+''')
+
+raw(r'''
+/// the layer-1 candidates: distinct unmarked nodes, exactly those listed in c1a or c1b that are unmarked
+pub open spec fn next1_ok(c1a: Seq<usize>, c1b: Seq<usize>, v1: Seq<usize>, next1: Seq<usize>, n: int) -> bool {
+    &&& in_bounds(next1, n) && injective(next1)
+    &&& forall|k: int| 0 <= k < next1.len() ==> v1[(#[trigger] next1[k]) as int] == 0
+            && (hit(c1a, next1[k] as int, c1a.len() as int) || hit(c1b, next1[k] as int, c1b.len() as int))
+    &&& forall|i: int| 0 <= i < c1a.len() && v1[(#[trigger] c1a[i]) as int] == 0 ==> hit(next1, c1a[i] as int, next1.len() as int)
+    &&& forall|i: int| 0 <= i < c1b.len() && v1[(#[trigger] c1b[i]) as int] == 0 ==> hit(next1, c1b[i] as int, next1.len() as int)
+}
+
+/// merged = c1a ++ c1b, uniq = its distinct values (sparse_bincount), next1 = the unmarked ones
+pub proof fn lemma_next1(c1a: Seq<usize>, c1b: Seq<usize>, uniq: Seq<usize>, v1: Seq<usize>, next1: Seq<usize>, n: int)
+    requires in_bounds(c1a, n), in_bounds(c1b, n), v1.len() == n, injective(uniq),
+        forall|k: int| 0 <= k < uniq.len() ==> count(c1a + c1b, (#[trigger] uniq[k]) as int, (c1a + c1b).len() as int) > 0,
+        forall|i: int| 0 <= i < (c1a + c1b).len() ==> #[trigger] hit(uniq, (c1a + c1b)[i] as int, uniq.len() as int),
+        pick_ok(v1, uniq, next1),
+    ensures next1_ok(c1a, c1b, v1, next1, n)
+{
+    let mg = c1a + c1b;
+    assert forall|k: int| 0 <= k < next1.len() implies v1[(#[trigger] next1[k]) as int] == 0
+            && (hit(c1a, next1[k] as int, c1a.len() as int) || hit(c1b, next1[k] as int, c1b.len() as int)) by {
+        assert(hit(uniq, next1[k] as int, uniq.len() as int));
+        let u = choose|u: int| 0 <= u < uniq.len() && #[trigger] uniq[u] == next1[k];
+        let i = lemma_count_witness(mg, uniq[u] as int, mg.len() as int);
+        if i < c1a.len() { assert(c1a[i] == mg[i]); } else { assert(c1b[i - c1a.len()] == mg[i]); }
+    }
+    assert forall|i: int| 0 <= i < c1a.len() && v1[(#[trigger] c1a[i]) as int] == 0 implies hit(next1, c1a[i] as int, next1.len() as int) by {
+        assert(mg[i] == c1a[i]);
+        assert(hit(uniq, mg[i] as int, uniq.len() as int));
+        let u = choose|u: int| 0 <= u < uniq.len() && #[trigger] uniq[u] == c1a[i];
+        assert(v1[uniq[u] as int] == 0);
+    }
+    assert forall|i: int| 0 <= i < c1b.len() && v1[(#[trigger] c1b[i]) as int] == 0 implies hit(next1, c1b[i] as int, next1.len() as int) by {
+        assert(mg[c1a.len() + i] == c1b[i]);
+        assert(hit(uniq, mg[c1a.len() + i] as int, uniq.len() as int));
+        let u = choose|u: int| 0 <= u < uniq.len() && #[trigger] uniq[u] == c1b[i];
+        assert(v1[uniq[u] as int] == 0);
+    }
+}
+
+/// the distinct values of c1a ++ c1b are nodes (precondition of the second filter_unvisited call)
+pub proof fn lemma_uniq_bounds(c1a: Seq<usize>, c1b: Seq<usize>, uniq: Seq<usize>, n: int)
+    requires in_bounds(c1a, n), in_bounds(c1b, n),
+        forall|k: int| 0 <= k < uniq.len() ==> count(c1a + c1b, (#[trigger] uniq[k]) as int, (c1a + c1b).len() as int) > 0,
+    ensures in_bounds(uniq, n)
+{
+    let mg = c1a + c1b;
+    assert forall|k: int| 0 <= k < uniq.len() implies (#[trigger] uniq[k]) < n by {
+        let i = lemma_count_witness(mg, uniq[k] as int, mg.len() as int);
+        if i < c1a.len() { assert(c1a[i] == mg[i]); } else { assert(c1b[i - c1a.len()] == mg[i]); }
+    }
+}
+
+/// the adjacency `adj` lists exactly the pairs of the relation named by `which` (0: thru xin, 1: thru xout, 2: any hyperedge)
+pub open spec fn adj_is(adj: IndexedCoproduct<FiniteFunction>, s: IndexedCoproduct<FiniteFunction>, t: IndexedCoproduct<FiniteFunction>, es: Seq<usize>, n: int) -> bool {
+    &&& adj_wf(adj) && adj.sources.table@.len() == n
+    &&& forall|w: int, v: int| #![trigger adj_edge(adj, w, v)] #![trigger thru(s, t, es, w, v)] 0 <= w < n && 0 <= v < n ==> (adj_edge(adj, w, v) <==> thru(s, t, es, w, v))
+}
+pub open spec fn adj_is_all(adj: IndexedCoproduct<FiniteFunction>, s: IndexedCoproduct<FiniteFunction>, t: IndexedCoproduct<FiniteFunction>, n: int) -> bool {
+    &&& adj_wf(adj) && adj.sources.table@.len() == n
+    &&& forall|w: int, v: int| #![trigger adj_edge(adj, w, v)] #![trigger node_step(s, t, w, v)] 0 <= w < n && 0 <= v < n ==> (adj_edge(adj, w, v) <==> node_step(s, t, w, v))
+}
+
+/// one round: successor lists of the three adjacencies, filtered, give round_ok
+pub proof fn lemma_round(s: IndexedCoproduct<FiniteFunction>, t: IndexedCoproduct<FiniteFunction>, xin: Seq<usize>, xout: Seq<usize>, n: int,
+                         adj_in: IndexedCoproduct<FiniteFunction>, adj_out: IndexedCoproduct<FiniteFunction>, adj_all: IndexedCoproduct<FiniteFunction>,
+                         v0: Seq<usize>, v1: Seq<usize>, f0: Seq<usize>, f1: Seq<usize>,
+                         c0: Seq<usize>, c1a: Seq<usize>, c1b: Seq<usize>, next0: Seq<usize>, next1: Seq<usize>)
+    requires adj_is(adj_in, s, t, xin, n), adj_is(adj_out, s, t, xout, n), adj_is_all(adj_all, s, t, n),
+        v0.len() == n, v1.len() == n, in_bounds(f0, n), in_bounds(f1, n),
+        in_bounds(c0, n), in_bounds(c1a, n), in_bounds(c1b, n), injective(c0),
+        forall|v: int| 0 <= v < n ==> (hit(c0, v, c0.len() as int) <==> #[trigger] edge_from(adj_in, f0, v)),
+        forall|v: int| 0 <= v < n ==> (hit(c1a, v, c1a.len() as int) <==> #[trigger] edge_from(adj_out, f0, v)),
+        forall|v: int| 0 <= v < n ==> (hit(c1b, v, c1b.len() as int) <==> #[trigger] edge_from(adj_all, f1, v)),
+        pick_ok(v0, c0, next0), next1_ok(c1a, c1b, v1, next1, n),
+    ensures round_ok(s, t, xin, xout, n, v0, v1, f0, f1, next0, next1)
+{
+    assert forall|k: int| 0 <= k < next0.len() implies v0[(#[trigger] next0[k]) as int] == 0 && exists|i: int| 0 <= i < f0.len() && thru(s, t, xin, (#[trigger] f0[i]) as int, next0[k] as int) by {
+        let v = next0[k] as int;
+        assert(hit(c0, v, c0.len() as int));
+        assert(edge_from(adj_in, f0, v));
+        let i = choose|i: int| 0 <= i < f0.len() && adj_edge(adj_in, (#[trigger] f0[i]) as int, v);
+        assert(thru(s, t, xin, f0[i] as int, v));
+    }
+    assert forall|k: int| 0 <= k < next1.len() implies v1[(#[trigger] next1[k]) as int] == 0
+            && ((exists|i: int| 0 <= i < f0.len() && thru(s, t, xout, (#[trigger] f0[i]) as int, next1[k] as int))
+                || (exists|i: int| 0 <= i < f1.len() && node_step(s, t, (#[trigger] f1[i]) as int, next1[k] as int))) by {
+        let v = next1[k] as int;
+        if hit(c1a, v, c1a.len() as int) {
+            assert(edge_from(adj_out, f0, v));
+            let i = choose|i: int| 0 <= i < f0.len() && adj_edge(adj_out, (#[trigger] f0[i]) as int, v);
+            assert(thru(s, t, xout, f0[i] as int, v));
+        } else {
+            assert(hit(c1b, v, c1b.len() as int));
+            assert(edge_from(adj_all, f1, v));
+            let i = choose|i: int| 0 <= i < f1.len() && adj_edge(adj_all, (#[trigger] f1[i]) as int, v);
+            assert(node_step(s, t, f1[i] as int, v));
+        }
+    }
+    assert forall|i: int, v: int| 0 <= i < f0.len() && 0 <= v < n && #[trigger] thru(s, t, xin, f0[i] as int, v) && v0[v] == 0 implies hit(next0, v, next0.len() as int) by {
+        assert(adj_edge(adj_in, f0[i] as int, v));
+        assert(edge_from(adj_in, f0, v));
+        let c = choose|c: int| 0 <= c < c0.len() && #[trigger] c0[c] == v;
+        assert(v0[c0[c] as int] == 0);
+    }
+    assert forall|i: int, v: int| 0 <= i < f0.len() && 0 <= v < n && #[trigger] thru(s, t, xout, f0[i] as int, v) && v1[v] == 0 implies hit(next1, v, next1.len() as int) by {
+        assert(adj_edge(adj_out, f0[i] as int, v));
+        assert(edge_from(adj_out, f0, v));
+        let c = choose|c: int| 0 <= c < c1a.len() && #[trigger] c1a[c] == v;
+        assert(v1[c1a[c] as int] == 0);
+    }
+    assert forall|i: int, v: int| 0 <= i < f1.len() && 0 <= v < n && #[trigger] node_step(s, t, f1[i] as int, v) && v1[v] == 0 implies hit(next1, v, next1.len() as int) by {
+        assert(adj_edge(adj_all, f1[i] as int, v));
+        assert(edge_from(adj_all, f1, v));
+        let c = choose|c: int| 0 <= c < c1b.len() && #[trigger] c1b[c] == v;
+        assert(v1[c1b[c] as int] == 0);
+    }
+}
+
+/// nothing new in a round: the marked sets are closed
+pub proof fn lemma_bfs_break(s: IndexedCoproduct<FiniteFunction>, t: IndexedCoproduct<FiniteFunction>, xin: Seq<usize>, xout: Seq<usize>, seeds: Seq<usize>, n: int,
+                             v0: Seq<usize>, v1: Seq<usize>, f0: Seq<usize>, f1: Seq<usize>, next0: Seq<usize>, next1: Seq<usize>)
+    requires bfs_inv(s, t, xin, xout, seeds, n, v0, v1, f0, f1), round_ok(s, t, xin, xout, n, v0, v1, f0, f1, next0, next1),
+        next0.len() == 0, next1.len() == 0,
+    ensures bfs_done(s, t, xin, xout, seeds, n, v0, v1)
+{
+    assert forall|w: int, v: int| 0 <= w < n && 0 <= v < n && v0[w] == 1 && #[trigger] thru(s, t, xin, w, v) implies v0[v] == 1 by {
+        if hit(f0, w, f0.len() as int) {
+            let i = choose|i: int| 0 <= i < f0.len() && #[trigger] f0[i] == w;
+            assert(thru(s, t, xin, f0[i] as int, v));
+            if v0[v] == 0 { assert(hit(next0, v, next0.len() as int)); }
+            assert(v0[v] <= 1);
+        }
+    }
+    assert forall|w: int, v: int| 0 <= w < n && 0 <= v < n && v0[w] == 1 && #[trigger] thru(s, t, xout, w, v) implies v1[v] == 1 by {
+        if hit(f0, w, f0.len() as int) {
+            let i = choose|i: int| 0 <= i < f0.len() && #[trigger] f0[i] == w;
+            assert(thru(s, t, xout, f0[i] as int, v));
+            if v1[v] == 0 { assert(hit(next1, v, next1.len() as int)); }
+            assert(v1[v] <= 1);
+        }
+    }
+    assert forall|w: int, v: int| 0 <= w < n && 0 <= v < n && v1[w] == 1 && #[trigger] node_step(s, t, w, v) implies v1[v] == 1 by {
+        if hit(f1, w, f1.len() as int) {
+            let i = choose|i: int| 0 <= i < f1.len() && #[trigger] f1[i] == w;
+            assert(node_step(s, t, f1[i] as int, v));
+            if v1[v] == 0 { assert(hit(next1, v, next1.len() as int)); }
+            assert(v1[v] <= 1);
+        }
+    }
+}
+
+/// marking the new nodes and advancing the frontiers keeps the invariant
+pub proof fn lemma_bfs_step(s: IndexedCoproduct<FiniteFunction>, t: IndexedCoproduct<FiniteFunction>, xin: Seq<usize>, xout: Seq<usize>, seeds: Seq<usize>, n: int,
+                            v0: Seq<usize>, v1: Seq<usize>, f0: Seq<usize>, f1: Seq<usize>, next0: Seq<usize>, next1: Seq<usize>, v0n: Seq<usize>, v1n: Seq<usize>)
+    requires bfs_inv(s, t, xin, xout, seeds, n, v0, v1, f0, f1), round_ok(s, t, xin, xout, n, v0, v1, f0, f1, next0, next1),
+        v0n.len() == n, v1n.len() == n,
+        forall|j: int| 0 <= j < n ==> #[trigger] v0n[j] == (if written(next0, j) { 1usize } else { v0[j] }),
+        forall|j: int| 0 <= j < n ==> #[trigger] v1n[j] == (if written(next1, j) { 1usize } else { v1[j] }),
+    ensures bfs_inv(s, t, xin, xout, seeds, n, v0n, v1n, next0, next1),
+        total(v0n) == total(v0) + next0.len(), total(v1n) == total(v1) + next1.len(), total(v0n) <= n, total(v1n) <= n,
+{
+    lemma_bfs_marks(v0, next0, v0n);
+    lemma_bfs_marks(v1, next1, v1n);
+    assert forall|k: int| 0 <= k < seeds.len() implies v0n[(#[trigger] seeds[k]) as int] == 1 by { assert(v0[seeds[k] as int] == 1); }
+    assert forall|k: int| 0 <= k < next0.len() implies v0n[(#[trigger] next0[k]) as int] == 1 by { assert(hit(next0, next0[k] as int, next0.len() as int)); }
+    assert forall|k: int| 0 <= k < next1.len() implies v1n[(#[trigger] next1[k]) as int] == 1 by { assert(hit(next1, next1[k] as int, next1.len() as int)); }
+    assert forall|v: int| 0 <= v < n && (#[trigger] v0n[v]) == 1 implies reach0(s, t, xin, seeds, v) by {
+        if v0[v] != 1 {
+            let k = choose|k: int| 0 <= k < next0.len() && #[trigger] next0[k] == v;
+            let i = choose|i: int| 0 <= i < f0.len() && thru(s, t, xin, (#[trigger] f0[i]) as int, next0[k] as int);
+            assert(v0[f0[i] as int] == 1);
+            lemma_reach0_step(s, t, xin, seeds, f0[i] as int, v);
+        }
+    }
+    assert forall|v: int| 0 <= v < n && (#[trigger] v1n[v]) == 1 implies reach1(s, t, xin, xout, seeds, v) by {
+        if v1[v] != 1 {
+            let k = choose|k: int| 0 <= k < next1.len() && #[trigger] next1[k] == v;
+            if exists|i: int| 0 <= i < f0.len() && thru(s, t, xout, (#[trigger] f0[i]) as int, next1[k] as int) {
+                let i = choose|i: int| 0 <= i < f0.len() && thru(s, t, xout, (#[trigger] f0[i]) as int, next1[k] as int);
+                assert(v0[f0[i] as int] == 1);
+                lemma_reach1_enter(s, t, xin, xout, seeds, f0[i] as int, v);
+            } else {
+                let i = choose|i: int| 0 <= i < f1.len() && node_step(s, t, (#[trigger] f1[i]) as int, next1[k] as int);
+                assert(v1[f1[i] as int] == 1);
+                lemma_reach1_step(s, t, xin, xout, seeds, f1[i] as int, v);
+            }
+        }
+    }
+    assert forall|w: int, v: int| 0 <= w < n && 0 <= v < n && v0n[w] == 1 && !hit(next0, w, next0.len() as int) && #[trigger] thru(s, t, xin, w, v) implies v0n[v] == 1 by {
+        assert(v0[w] == 1);
+        if hit(f0, w, f0.len() as int) {
+            let i = choose|i: int| 0 <= i < f0.len() && #[trigger] f0[i] == w;
+            assert(thru(s, t, xin, f0[i] as int, v));
+            assert(v0[v] <= 1);
+            if v0[v] == 0 { assert(hit(next0, v, next0.len() as int)); }
+        } else { assert(v0[v] == 1); }
+    }
+    assert forall|w: int, v: int| 0 <= w < n && 0 <= v < n && v0n[w] == 1 && !hit(next0, w, next0.len() as int) && #[trigger] thru(s, t, xout, w, v) implies v1n[v] == 1 by {
+        assert(v0[w] == 1);
+        if hit(f0, w, f0.len() as int) {
+            let i = choose|i: int| 0 <= i < f0.len() && #[trigger] f0[i] == w;
+            assert(thru(s, t, xout, f0[i] as int, v));
+            assert(v1[v] <= 1);
+            if v1[v] == 0 { assert(hit(next1, v, next1.len() as int)); }
+        } else { assert(v1[v] == 1); }
+    }
+    assert forall|w: int, v: int| 0 <= w < n && 0 <= v < n && v1n[w] == 1 && !hit(next1, w, next1.len() as int) && #[trigger] node_step(s, t, w, v) implies v1n[v] == 1 by {
+        assert(v1[w] == 1);
+        if hit(f1, w, f1.len() as int) {
+            let i = choose|i: int| 0 <= i < f1.len() && #[trigger] f1[i] == w;
+            assert(node_step(s, t, f1[i] as int, v));
+            assert(v1[v] <= 1);
+            if v1[v] == 0 { assert(hit(next1, v, next1.len() as int)); }
+        } else { assert(v1[v] == 1); }
+    }
+}
+''')
